@@ -153,6 +153,7 @@ def transform(raw, known=None):
     report['helpers'] = sorted(inl)
 
     counter = [0]
+    touched = []
 
     def next_prom_index(owner_key):
         n = 0
@@ -262,7 +263,16 @@ def transform(raw, known=None):
         for fk in family(h):
             inline_into(fk)
     for fk in [k for k in list(bodies) if (bodies[k].get('root') or k) not in inl and k not in inl]:
+        n0 = report['inlined_calls']
         inline_into(fk)
+        if report['inlined_calls'] > n0:
+            touched.append(fk)
+    # a helper that takes a closure and calls it (`with_rng(|rng| ..)`) leaves, once inlined, a direct call of a closure
+    # built a few statements earlier: run it in place
+    raw['bodies'] = blist
+    report['closure_calls'] = inline_closure_calls(raw, touched)
+    blist = raw['bodies']
+    bodies = {b['key']: b for b in blist}
     # helpers nobody refers to any more disappear (with their closures and promoted constants)
     removable = set(inl)
     changed = True
@@ -320,7 +330,7 @@ COMBINATORS = {
 }
 
 
-def _uses_of_local(f, l):
+def _uses_of_local(f, l, skip_drops=False):
     n = 0
 
     def walk(x):
@@ -343,7 +353,8 @@ def _uses_of_local(f, l):
             walk(st['rv'])
             if st['lhs']['p']:
                 walk(st['lhs'])
-        walk(blk['term'])
+        if not (skip_drops and blk['term']['k'] == 'drop'):
+            walk(blk['term'])
     return n
 
 
@@ -525,6 +536,162 @@ def expand_call_once(raw):
                 blk['st'].append({'lhs': {'l': dsc, 'p': []}, 'rv': {'k': 'discr', 'pl': {'l': s, 'p': []}}, 'ln': ln, 'exp': False})
                 blk['term'] = {'k': 'switch', 'd': {'mv': {'l': dsc, 'p': []}}, 'cases': [[act_vi, b_act]], 'else': b_pas, 'ln': ln, 'exp': False}
             # closures nested in the expanded one now belong to f directly
+            for k2, b2 in bodies.items():
+                if b2.get('parent') == ck and b2.get('kind') == 'Closure':
+                    b2['parent'] = fk
+            gone.add(ck)
+    if gone:
+        dead = set()
+        for k, b in bodies.items():
+            owner = b.get('promoted_of') or k
+            if owner in gone:
+                dead.add(k)
+        raw['bodies'] = [b for b in blist if b['key'] not in dead]
+    return done
+
+
+def inline_closure_calls(raw, keys):
+    """`FnOnce::call_once(move c, (a, b))` where `c` is a closure built in the same body and used by this call only: the
+    closure body is inlined at the call, its environment becomes a tuple.  Only in the bodies named by `keys`."""
+    blist = raw['bodies']
+    bodies = {b['key']: b for b in blist}
+    done = 0
+    gone = set()
+
+    def next_prom_index(owner_key):
+        n = 0
+        pre = owner_key + '::promoted['
+        for k in bodies:
+            if k.startswith(pre):
+                try:
+                    n = max(n, int(k[len(pre):-1]) + 1)
+                except ValueError:
+                    pass
+        return n
+
+    def single_def(f, l):
+        ds = [st for b2 in f['blocks'] if not b2.get('cleanup') for st in b2['st'] if st['lhs']['l'] == l and not st['lhs']['p']]
+        ts = [b2 for b2 in f['blocks'] if b2['term']['k'] == 'call' and b2['term']['dest']['l'] == l]
+        return ds[0] if len(ds) == 1 and not ts else None
+
+    for fk in keys:
+        f = bodies.get(fk)
+        if f is None or 'promoted_of' in f:
+            continue
+        bi = 0
+        while bi < len(f['blocks']):
+            blk = f['blocks'][bi]
+            bi += 1
+            t = blk['term']
+            if blk.get('cleanup') or t['k'] != 'call' or len(f['blocks']) > MAX_BLOCKS or t.get('t') is None:
+                continue
+            fn = ((t.get('f') or {}).get('c') or {}).get('fn') or {}
+            if fn.get('def') != 'std::ops::FnOnce::call_once' or len(t['args']) != 2:
+                continue
+            a0, a1 = t['args']
+            if 'mv' not in a0 or a0['mv']['p'] or 'mv' not in a1 or a1['mv']['p']:
+                continue
+            # the closure value: a chain of moves back to one closure aggregate, every link used once
+            l = a0['mv']['l']
+            cdef = None
+            ok = True
+            for _ in range(8):
+                d = single_def(f, l)
+                if d is None or _uses_of_local(f, l, skip_drops=True) != 1:
+                    ok = False
+                    break
+                rv = d['rv']
+                if rv.get('k') == 'agg' and 'closure' in rv:
+                    cdef = d
+                    break
+                if rv.get('k') == 'use' and 'mv' in rv['a'] and not rv['a']['mv']['p']:
+                    l = rv['a']['mv']['l']
+                    continue
+                ok = False
+                break
+            if not ok or cdef is None:
+                continue
+            cl = a0['mv']['l']
+            ck = cdef['rv']['closure']
+            cb = bodies.get(ck)
+            td = single_def(f, a1['mv']['l'])
+            if cb is None or ck in gone or td is None or td['rv'].get('k') != 'agg' or not td['rv'].get('tuple'):
+                continue
+            nargs = len(td['rv']['ops'])
+            if cb['argc'] != 1 + nargs:
+                continue
+            done += 1
+            dest, target, ln = t['dest'], t['t'], t.get('ln', 0)
+            L, B = f['locals'], f['blocks']
+            dl, db = len(L), len(B)
+            pmap = {}
+
+            def prom(i, pmap=pmap, ck=ck, fk=fk, f=f):
+                if i not in pmap:
+                    j = next_prom_index(fk)
+                    src = bodies.get('%s::promoted[%d]' % (ck, i))
+                    nk = '%s::promoted[%d]' % (fk, j)
+                    nb = copy.deepcopy(src) if src is not None else {'kind': 'Fn', 'span': f['span'], 'argc': 0, 'locals': [],
+                                                                     'blocks': [], 'vars': []}
+                    nb['key'] = nk
+                    nb['promoted_of'] = fk
+                    bodies[nk] = nb
+                    blist.append(nb)
+                    pmap[i] = j
+                return pmap[i]
+            env_ty = cb['locals'][1]['ty']
+            if env_ty.startswith('&mut '):
+                blk['st'].append({'lhs': {'l': dl + 1, 'p': []}, 'rv': {'k': 'ref', 'mut': True, 'pl': {'l': cl, 'p': []}}, 'ln': ln, 'exp': False})
+            elif env_ty.startswith('&'):
+                blk['st'].append({'lhs': {'l': dl + 1, 'p': []}, 'rv': {'k': 'ref', 'mut': False, 'pl': {'l': cl, 'p': []}}, 'ln': ln, 'exp': False})
+            else:
+                blk['st'].append({'lhs': {'l': dl + 1, 'p': []}, 'rv': {'k': 'use', 'a': {'mv': {'l': cl, 'p': []}}}, 'ln': ln, 'exp': False})
+            for i in range(nargs):
+                blk['st'].append({'lhs': {'l': dl + 2 + i, 'p': []},
+                                  'rv': {'k': 'use', 'a': {'mv': {'l': a1['mv']['l'],
+                                                                  'p': [{'f': i, 'n': str(i), 'o': 'tuple', 'ty': cb['locals'][2 + i]['ty']}]}}},
+                                  'ln': ln, 'exp': False})
+            blk['term'] = {'k': 'goto', 't': db, 'ln': ln, 'exp': t.get('exp', False)}
+            L.extend(copy.deepcopy(cb['locals']))
+            for v in cb.get('vars', []):
+                f['vars'].append(_remap(v, dl, db, None, prom))
+            for gb in cb['blocks']:
+                nb = {'cleanup': gb.get('cleanup', False),
+                      'st': [_remap(st, dl, db, None, prom) for st in gb['st']],
+                      'term': _remap(gb['term'], dl, db, None, prom)}
+                nt = nb['term']
+                if nt['k'] == 'return':
+                    nb['st'].append({'lhs': copy.deepcopy(dest), 'rv': {'k': 'use', 'a': {'mv': {'l': dl, 'p': []}}},
+                                     'ln': nt.get('ln', ln), 'exp': False})
+                    nb['term'] = {'k': 'goto', 't': target, 'ln': nt.get('ln', ln), 'exp': False}
+                else:
+                    _retarget(nt, db)
+                B.append(nb)
+
+            def fix_env(x, ck=ck):
+                if isinstance(x, dict):
+                    if x.get('o') == 'closure:' + ck and 'f' in x:
+                        x['n'] = str(x['f'])
+                        x['o'] = 'tuple'
+                    for v in x.values():
+                        fix_env(v)
+                elif isinstance(x, list):
+                    for v in x:
+                        fix_env(v)
+            for nb in B[db:]:
+                fix_env(nb)
+            fix_env(f['vars'])
+            crv = cdef['rv']
+            cdef['rv'] = {'k': 'agg', 'tuple': True, 'ops': crv['ops'], 'was_closure': ck}
+            tl = cdef['lhs']['l']
+            tup = {'ty': '(%s)' % ', '.join(['_'] * len(crv['ops'])), 'h': {'tuple': len(crv['ops'])}}
+            # every link of the chain now holds the tuple
+            l2 = cl
+            while True:
+                L[l2] = copy.deepcopy(tup)
+                if l2 == tl:
+                    break
+                l2 = single_def(f, l2)['rv']['a']['mv']['l']
             for k2, b2 in bodies.items():
                 if b2.get('parent') == ck and b2.get('kind') == 'Closure':
                     b2['parent'] = fk
